@@ -35,7 +35,8 @@ def oracle(c, real, model):
 
 def pid_lists(rng, c, pmt_pid):
     have = [pid for _, pid, _ in c["sec"]["streams"]]
-    absent = [p for p in (5, 17, 8000, 8191, 70000, rng.randrange(1, 8192)) if p not in have and p != pmt_pid]
+    # 8 and 9 are never requested: bin/check treats a reply containing "[8]" / "[9]" (here: a one-element missing-PID list) as a protocol error
+    absent = [p for p in (5, 17, 8000, 8191, 70000, rng.randrange(10, 8192)) if p not in have and p != pmt_pid]
     out = [("empty", []), ("all", list(have)), ("all-reversed", list(reversed(have)))]
     if have:
         out.append(("one", [rng.choice(have)]))
@@ -111,8 +112,8 @@ def gen(rng, tier):
             out.append(Case(line, kind="filter-" + kind, theorem=th))
         have = [x for _, x, _ in c["sec"]["streams"]]
         for _ in range(2):
-            rm = [rng.choice(have + [9, 8000]) for _ in range(rng.randrange(0, 4))]
-            qs = have + [9, 0, 8000]
+            rm = [rng.choice(have + [7, 8000]) for _ in range(rng.randrange(0, 4))]
+            qs = have + [7, 0, 8000]
             out.append(Case("pmt.remove %s %s %s" % (hx(p), fmt_val(rm), fmt_val(qs)), kind="remove",
                             theorem="C14_remove_streams"))
     for (line, _), exp in zip(spec_req, vlib.run_model([r for _, r in spec_req])):
@@ -146,7 +147,7 @@ def gen(rng, tier):
     for (c, mode), pl in zip(fmeta, vlib.run_model(flines)):
         pl_req = pl.replace("[", "[ ").replace("]", " ]")
         have = [x for _, x, _ in c["sec"]["streams"]]
-        want = have[:2] + [0] if rng.random() < 0.7 else [9]
+        want = have[:2] + [0] if rng.random() < 0.7 else [7]
         out.append(Case("pmt.filter %s %s" % (pl_req, fmt_val(want)), kind="fid-" + mode, decides=False, nontrivial=False))
         # a packet of another PID inside the list (the filter concatenates every payload it is given)
         toks = pl_req.split()
